@@ -1220,7 +1220,7 @@ def executeTplUnbuffered : Nat → Nat → Env → XM Unit
         modify fun s => { s with cycle := [], changedV := [], changedC := [] }
         let restore : XM Unit := modify fun s => { s with cycle := saved.cycle, changedV := saved.changedV, changedC := saved.changedC }
         try
-          withFrame { id := 0, priv := [(b!"pongo2", metaCtx)], pub := newCtx, autoescape := true, macroDepth := 0,
+          withFrame { id := 0, priv := [(b!"pongo2", metaCtx)], pub := newCtx, autoescape := cfg.autoescape, macroDepth := 0,
                       chain := chain, called := ti } (execNodes fuel root.nodes)
           restore
         catch e =>
